@@ -460,7 +460,7 @@ func TestC17(t *testing.T) {
 			run.Violation(id, key, what, ops)
 		}
 	}
-	n := run.Pick(6000, 600000)
+	n := run.Pick(12000, 6000000)
 	for i := 0; i < n; i++ {
 		if !run.Mine(i) {
 			continue
@@ -485,7 +485,7 @@ func TestC17(t *testing.T) {
 		}
 	}
 	if !run.Replaying() || run.Want("conc/0") {
-		c17Concurrent(t, run, run.Pick(12, 400))
+		c17Concurrent(t, run, run.Pick(16, 3000))
 	}
 	c17Rotation(t, run)
 	run.Complete()
